@@ -2,18 +2,20 @@
 from ekw import ctrl_check
 
 PROPERTY = "C03"
-LEVEL_TEXT = ("Lean theorems over the controller x executors system extended by the scheduler's own bookkeeping (Model/Sched.lean: host->component, weights, key "
-              "sets of the heuristics' dictionaries, control flow of assign()). ALL for ANY order and batching of events (no FIFO hypothesis is left): the "
-              "controller never raises from its bookkeeping (all six raise/KeyError sites of the controller functions and every KeyError site of the assignment "
-              "heuristics are unreachable: c03_no_crash, c03_sched_no_crash), shutdown is issued exactly once and last, nothing is computable/ongoing/unfetched "
-              "when the loop exits, an ongoing task is really queued or has run; completion of a task is detected exactly when the notices of ALL its outputs "
-              "have been processed, no notice is lost or counted twice (c03_done_iff_all_notices, c03_notices_accounted; Tier P over State.published_outputs); "
-              "all tasks are completed, ran and were dispatched exactly once when the loop exits (c03_done); an iteration entered with something computable "
-              "and nothing ongoing dispatches a task before assign() returns on every feasible cluster (c03_progress); the loop makes at most roundBound(job) "
-              "iterations (c03_bounded); whenever the controller blocks in recv_events an event is pending or an executor step is enabled (c03_no_idle_wait, "
-              "c03_ongoing_is_live). The former counterexample (last output's notice overtakes an earlier one) is a decided example of Props/C03.lean. The same "
-              "clauses are decided per run by the watchdog oracle, under both adversaries (any order and FIFO).")
-LEVEL_NOTE = ("modelled, not verified: scheduler/api.py initialize/plan, scheduler/assign.py build_assignment + the pops of _assignment_heuristic, controller/act.py act/flush_queues, controller/notify.py notify/consider_*, impl.run loop skeleton (Model/Ctrl.lean, one Lean function per Python function). Abstracted as an oracle argument validated for admissibility by the model and supplied from what the real run chose: which (idle worker, computable task) pairs the distance/overhead heuristics and host->component migration pick per round, and which `available` host is the transmit source; theorems quantify over all admissible choices. Executors are abstract (Env; SimBridge mirrors it): a dispatched task runs once its inputs are on its host and publishes outputs in index order; transmit/fetch read the source store; purge is immediate. Hypothesis WF: tasks topologically numbered, inputs duplicate-free, >=1 output per task, requested outputs exist, worker ids distinct (the generator guarantees it). The numeric values of the distance/overhead dictionaries (hence WHICH admissible pair a phase of the heuristics picks) are outside the model; their key sets and every KeyError site are inside (Model/Sched.lean). Executor fairness (an enabled executor step is eventually taken) is SimBridge's scheduler: the theorems bound controller iterations and exclude waiting with nothing outstanding, they do not bound wall-clock time. Fixed on the way: completion of a multi-output task was inferred from the notice of its LAST output (fix commit d9c96b4, finding C03-last-output-overtakes now status fixed; its corpus witnesses are regression inputs).")
+LEVEL_TEXT = ("Lean theorems over the controller x executors system extended by the scheduler's own bookkeeping (Model/Sched.lean) and with commands interpreted with "
+              "everything they carry (Cmd.taskSeq carries the publish set; a body publishes only what it names: envRunSpec). ALL for ANY order and batching of "
+              "events. TERMINATION IS A THEOREM: a lexicographic measure strictly decreases at every step of the whole system - controller micro-step, assign() "
+              "control flow, executor step - from every reachable state (c03_measure_decreases), so there is no infinite execution (c03_no_infinite_execution); in "
+              "every reachable state but `finished` a step is enabled, a CONTROLLER step in every phase but `waiting` - in particular inside _assignment_heuristic an "
+              "admissible assignment exists (c03_ctrl_step_enabled, c03_deadlock_free); hence the exit of the loop with all tasks completed, all outputs fetched and "
+              "shutdown issued once is INEVITABLE on every maximal execution (c03_completes, c03_every_maximal_execution_finishes; no fairness beyond 'an enabled "
+              "step is eventually taken'). Every task sequence carries all declared outputs of its task, so every notice the completion rule waits for is really sent "
+              "(c03_publish_complete, c03_all_notices_sent). Further: never raises from its bookkeeping (c03_no_crash, c03_sched_no_crash; events name only known "
+              "workers/hosts/datasets: c03_events_wellformed; the static tables distance_matrix/value are total on a component by C16: c03_heuristic_tables_total), "
+              "at most roundBound(job) loop iterations (c03_bounded, compared with the real iteration count on every run), never waits with nothing outstanding "
+              "(c03_no_idle_wait), completion exactly when the notices of ALL outputs were processed (c03_done_iff_all_notices, c03_notices_accounted), progress of "
+              "assign() (c03_progress). The same clauses are decided per run by the watchdog oracle under both adversaries. ")
+LEVEL_NOTE = ("modelled, not verified: scheduler/api.py initialize/plan, scheduler/assign.py build_assignment + the pops of _assignment_heuristic, controller/act.py act/flush_queues, controller/notify.py notify/consider_*, impl.run loop skeleton (Model/Ctrl.lean, one Lean function per Python function). Abstracted as an oracle argument validated for admissibility by the model and supplied from what the real run chose: which (idle worker, computable task) pairs the distance/overhead heuristics and host->component migration pick per round, and which `available` host is the transmit source; theorems quantify over all admissible choices. Executors are abstract (Env; SimBridge mirrors it): a dispatched task runs once its inputs are on its host and publishes outputs in index order; transmit/fetch read the source store; purge is immediate. Hypothesis WF: tasks topologically numbered, inputs duplicate-free, >=1 output per task, requested outputs exist, worker ids distinct (the generator guarantees it). The numeric values of the distance/overhead dictionaries (hence WHICH admissible pair a phase of the heuristics picks) are outside the model; their key sets and every KeyError site are inside (Model/Sched.lean). Executor fairness (an enabled executor step is eventually taken) is SimBridge's scheduler: the theorems bound controller iterations and exclude waiting with nothing outstanding, they do not bound wall-clock time. Fixed on the way: completion of a multi-output task was inferred from the notice of its LAST output (fix commit d9c96b4, finding C03-last-output-overtakes now status fixed; its corpus witnesses are regression inputs). Since the audit response: termination, deadlock freedom and enabledness inside assign() are theorems (Lemmas/SchedTerm*.lean); Cmd.taskSeq carries the publish set and the environment publishes only what it names (mutant 'publish trimmed in act' now deadlocks SimBridge: failing input); the static preschedule tables are covered by citing C16 (Props/C16 imported); the failure path of the real Bridge (recv_events shuts down and raises, run's finally shuts down again) is outside C03's hypothesis (executors report everything) and is modelled by C05 (Model/Failure.lean recvEvents/shutdownLoop); the real Reporter runs in a third of the cases; Bridge.shutdown's routing is checked on a shell object.")
 TECHNIQUE = "Lean 4 inductive system invariants (crash-freedom, shutdown discipline, completion record, liveness bookkeeping, potential function for bounded rounds) over a small-step transition system + differential correspondence with the real controller under adversarial schedules (watchdog oracles for liveness)"
 LEAN_PROPS = ["EkwVerif.Props.C03"]
 LEAN_DRIVERS = ["Ctrl", "CtrlX"]
